@@ -14,8 +14,11 @@ import traceback
 from . import VERIF_DIR
 from .dates import sub_seed
 
-EVIDENCE_DIR = os.path.join(VERIF_DIR, "evidence")
-REPLAY_DIR = os.path.join(VERIF_DIR, "replays")
+# VERIF_OUT redirects evidence and replays (used when the checks are pointed at a scratch copy of
+# the repository for sensitivity runs, so that the committed evidence is not overwritten)
+_OUT = os.environ.get("VERIF_OUT") or VERIF_DIR
+EVIDENCE_DIR = os.path.join(_OUT, "evidence")
+REPLAY_DIR = os.path.join(_OUT, "replays")
 KNOWN_FILE = os.path.join(VERIF_DIR, "known_findings.json")
 NPROC = int(os.environ.get("VERIF_NPROC", "16"))
 
@@ -237,7 +240,7 @@ def write_replay(prop: str, f: Failure) -> str:
     with open(path, "w", encoding="utf-8") as fh:
         json.dump({"property": prop, "key": f.key, "what": f.what, "case": f.case}, fh,
                   ensure_ascii=False, indent=1, default=str)
-    return os.path.relpath(path, VERIF_DIR)
+    return os.path.relpath(path, VERIF_DIR) if _OUT == VERIF_DIR else path
 
 
 def write_evidence(prop, *, tier, seed, level, coverage, assumptions, wall_s, violations):
